@@ -135,6 +135,7 @@ fn main() {
             else if pname == "pipein" { for _ in 0..count { println!("{}", generate_pipein(&mut r).text()); } }
             else if pname == "pipe" { for _ in 0..count { println!("{}", generate_pipe(&mut r, false).text()); } }
             else if pname == "pipedrop" { for _ in 0..count { println!("{}", generate_pipe(&mut r, true).text()); } }
+            else if pname == "poolchg" { for _ in 0..count { println!("{}", generate_poolchg(&mut r).text()); } }
             else { let p = profile(pname).expect("profile"); for _ in 0..count { println!("{}", generate(&p, &mut r).text()); } }
         }
         // run: programs from a profile (or from --progs file, one per line) x schedules
@@ -147,7 +148,8 @@ fn main() {
                 if pname == "panic" { (0..count).map(|_| generate_panic(&mut r)).collect::<Vec<_>>() }
                 else if pname == "pipein" { (0..count).map(|_| generate_pipein(&mut r)).collect::<Vec<_>>() }
                 else if pname == "pipe" { (0..count).map(|_| generate_pipe(&mut r, false)).collect::<Vec<_>>() }
-                else if pname == "pipedrop" { (0..count).map(|_| generate_pipe(&mut r, true)).collect::<Vec<_>>() } else {
+                else if pname == "pipedrop" { (0..count).map(|_| generate_pipe(&mut r, true)).collect::<Vec<_>>() }
+                else if pname == "poolchg" { (0..count).map(|_| generate_poolchg(&mut r)).collect::<Vec<_>>() } else {
                 let p = profile(pname).expect("profile");
                 let min_pool: usize = arg(&args, "--min-pool").and_then(|s| s.parse().ok()).unwrap_or(0);
                 let max_pool: usize = arg(&args, "--max-pool").and_then(|s| s.parse().ok()).unwrap_or(usize::MAX);
